@@ -188,6 +188,7 @@ func runOnce(c Case) verdict {
 	maxLate := 0
 	listening := true
 	var v verdict
+	var lastFault time.Time
 	for si, stp := range c.Steps {
 		if stp.Refuse {
 			listening = false
@@ -212,7 +213,10 @@ func runOnce(c Case) verdict {
 			}
 			return st.Refuse
 		}
-		clean := listening && !breaks(stp) && (si == 0 || !breaks(c.Steps[si-1])) && !stp.Restore
+		// ... and the last step that scripted a fault ended at least 300 ms ago (and neither of the two previous steps scripts one): a fault
+		// answered to a one-way call lands after the call (and the step) has returned, so a
+		// request of a later step can still go out on the connection that is about to die
+		clean := listening && !breaks(stp) && (si == 0 || !breaks(c.Steps[si-1])) && (si < 2 || !breaks(c.Steps[si-2])) && !stp.Restore && time.Since(lastFault) >= 300*time.Millisecond
 		results := make([]callResult, len(stp.Calls))
 		var wg sync.WaitGroup
 		for i, cl := range stp.Calls {
@@ -262,6 +266,9 @@ func runOnce(c Case) verdict {
 		case <-done:
 		case <-time.After(20 * time.Second):
 			return verdict{f: stat.Failf("call-never-returned", "step %d: a call did not return within 20 s (deadlines <= 300 ms)", si)}
+		}
+		if breaks(stp) || stp.Restore {
+			lastFault = time.Now()
 		}
 		_, sent, _ := srv.Snapshot()
 		bySerial := map[int64]peer.Sent{}
